@@ -220,6 +220,56 @@ def gbernsenAt (rule : Int → Int → Int → Int → Int → Bool) (A : Img In
 def interiorAt (shape : List Nat) (offs : List (List Int)) (p : List Int) : Bool :=
   offs.all fun k => inside shape (addPos p k)
 
+
+/-! ## rounding-error budget of `otsu` (the theorems are in `Proofs/C16Round.lean`) -/
+
+/-- index of the first non-zero bin (as in `rcSpec`), 0 if there is none -/
+def loOf (hist : List Nat) : Nat :=
+  ((hist.zipIdx.find? fun (v, _) => v ≠ 0).map (·.2)).getD 0
+
+/-- unit roundoff of binary64, `2^-53` -/
+def u53 : Rat := 1 / 9007199254740992
+
+def etaMax (Δ E : Rat) : Rat := (1 + u53) * (2 * E) + u53 * Δ
+
+def sigBound (N W Δ E : Rat) : Rat :=
+  ((1 + u53) * (E * N) + u53 * (W * Δ)) * (2 * Δ + etaMax Δ E) +
+    (2 * u53 + u53 * u53) * (W * ((Δ + etaMax Δ E) * (Δ + etaMax Δ E)))
+
+/-- the explicit error bound for the `sigma_between` values computed by `otsu` in binary64: `N` pixels,
+    first moment `Fn = Σ i·h[i]`, occupied levels `lo … hi`.  With `u = 2^-53`, `Δ = hi − lo`,
+    `E = u·Fn·(1 + 4Δ)`: `((1+u)·E·N + u·N²·Δ)·(2Δ + η) + (2u+u²)·N²·(Δ+η)²`, `η = 2(1+u)E + uΔ`
+    (leading term `8u·Δ²·Fn·N`). -/
+def otsuErrBound (N Fn lo hi : Nat) : Rat :=
+  sigBound (N : Rat) ((N : Rat) * (N : Rat)) ((hi - lo : Nat) : Rat)
+    (u53 * (Fn : Rat) * (1 + 4 * ((hi - lo : Nat) : Rat)))
+
+/-- the margin of the guarded comparison: a threshold computed in binary64 has an exact
+    between-class variance within this distance of the exact maximum (`C16_otsu_rounded_near_optimal`) -/
+def otsuMargin (hist : List Nat) : Rat :=
+  2 * otsuErrBound ((cumsum hist 0).toArray.getD (hist.length - 1) 0)
+    ((cumsum (weighted hist) 0).toArray.getD (hist.length - 1) 0) (loOf hist) (lastNonzero hist)
+
+/-! ## `morph.circle_se` -/
+
+/-- entry `(i, j)` of `circle_se(r)`: `X² + Y² < r²` with `X, Y = −r … r` (strict inequality) -/
+def circleAt (r i j : Nat) : Bool :=
+  decide (((i : Int) - r) * ((i : Int) - r) + ((j : Int) - r) * ((j : Int) - r) < (r : Int) * r)
+
+/-- `circle_se(r)` as the row-major `(2r+1) × (2r+1)` array of 0/1 -/
+def circleSe (r : Nat) : List Int :=
+  (List.range ((2 * r + 1) * (2 * r + 1))).map fun k =>
+    if circleAt r (k / (2 * r + 1)) (k % (2 * r + 1)) then 1 else 0
+
+/-- the three bit vectors the driver prints for `gbernsen` -/
+def bernsenOut (shape : List Nat) (data : List Int) (bshape : List Nat) (bc : List Int) (ct g2 : Int) : String :=
+  let A : Img Int := { shape := shape, data := data.toArray }
+  let offs := seOffsets bshape bc.toArray
+  let ps := allPos shape
+  s!"model={showBools (ps.map (gbernsenAt bernsenRule A offs ct g2))} " ++
+  s!"pinned={showBools (ps.map (gbernsenAt bernsenPinned A offs ct g2))} " ++
+  s!"interior={showBools (ps.map (interiorAt shape offs))}"
+
 /-! ## driver entry -/
 
 def natsOf (a : Args) (k : String) : List Nat := (a.ints k).map Int.toNat
@@ -240,7 +290,8 @@ def handle (a : Args) : String :=
     let got := a.nat "got"
     let exact := if hist.length ≤ 4096 then toString (otsuImg ratCast pix iz) else "skipped"
     s!"model={otsuImg floatCast pix iz} exact={exact} first={firstArgmax sig} " ++
-    s!"smax={ratStr (listMax sig)} sgot={ratStr (sig.getD got (-1))} n={hist.length}"
+    s!"smax={ratStr (listMax sig)} sgot={ratStr (sig.getD got (-1))} n={hist.length} " ++
+    s!"margin={ratStr (otsuMargin hist)}"
   | "rc" =>
     let pix := natsOf a "data"
     let iz := a.nat "iz" == 1
@@ -269,6 +320,12 @@ def handle (a : Args) : String :=
     s!"model={showBools (ps.map (gbernsenAt bernsenRule A offs ct g2))} " ++
     s!"pinned={showBools (ps.map (gbernsenAt bernsenPinned A offs ct g2))} " ++
     s!"interior={showBools (ps.map (interiorAt shape offs))}"
+  | "bernsen" =>
+    -- `bernsen(f, radius, …)`: the structuring element is built here (`circleSe`), not taken from the implementation
+    let r := a.nat "radius"
+    let se := circleSe r
+    bernsenOut (a.nats "shape") (a.ints "data") [2 * r + 1, 2 * r + 1] se (a.int "ct") (a.int "g2") ++
+    s!" se={showInts se}"
   | k => s!"error=unknown-kind-{k}"
 
 end Mahotas.C16
